@@ -405,7 +405,18 @@ def inline_new_helpers(project, ref) -> int:
     if done:
         for m in project.modules.values():
             ast.fix_missing_locations(m.tree)
-    project.inlined_keys = set(helpers)   # these functions no longer have call sites: rules that look at "who calls / who is never called" skip them
+    # helpers whose every use was spliced back no longer have call sites: rules that go through "all functions" skip them (their code is judged where it now stands)
+    still_used = set()
+    for f in project.all_functions():
+        for n in f.body_nodes():
+            nm = None
+            if isinstance(n, ast.Call):
+                nm = n.func.attr if isinstance(n.func, ast.Attribute) else (n.func.id if isinstance(n.func, ast.Name) else None)
+            elif isinstance(n, ast.Attribute) and isinstance(n.ctx, ast.Load):
+                nm = n.attr
+            if nm:
+                still_used.add(nm)
+    project.inlined_keys = {k for k, (g, _) in helpers.items() if g.name not in still_used}
     return done
 
 
